@@ -65,6 +65,16 @@ def pool_header(rng, ptype=None, src=None):
     return h
 
 
+def around_max(rng, sz, arrays):
+    """a request at or just beyond what allocator_traits reports as maximum (decided at run time)"""
+    r = rng.random()
+    if r < 0.4:
+        return "anm %d %d" % (rng.choice([-1, 0, 1, 1, 2, 8, 1000]), rng.choice([1, 1, 8]))
+    if r < 0.7 and arrays:
+        return "aam %d %d %d" % (max(1, sz), rng.choice([-1, 0, 1, 1, 2, 50]), 1)
+    return "anl %d %d" % (max(1, sz), rng.choice([1, 1, 2, 5]))
+
+
 def pool_cmds(rng, h, n, arrays=None, tries=True, fail=False):
     ns = h["ns"]
     eff = ns if h["type"] == "small" else max(ns, 8)
@@ -99,6 +109,8 @@ def pool_cmds(rng, h, n, arrays=None, tries=True, fail=False):
             cmds.append("an %d %d" % (sz, al))
         if rng.random() < 0.04:
             cmds.append("drain %d" % ns)
+        if rng.random() < 0.05:
+            cmds.append(around_max(rng, ns, arrays))
     cmds += ["nofail", "drain %d" % ns]
     return cmds
 
@@ -163,6 +175,8 @@ def coll_cmds(rng, h, n, arrays=None, tries=True, fail=False):
             cmds.append("an %d %d" % (sz, al))
         if rng.random() < 0.03:
             cmds.append("drain %d" % rng.choice(fav))
+        if rng.random() < 0.05:
+            cmds.append(around_max(rng, rng.choice(fav), arrays))
     cmds.append("nofail")
     cmds += ["drain %d" % f for f in fav]
     return cmds
